@@ -38,8 +38,8 @@ class C03(Prop):
 
     def plan(self, tier):
         if tier == "quick":
-            return {"units": 1500, "budget_s": 75, "block": 15}
-        return {"units": 60000, "budget_s": 1500, "block": 30}
+            return {"units": 1500, "budget_s": 100, "block": 15}
+        return {"units": 45000, "budget_s": 1700, "block": 30}
 
     # ---- corpus
     def entry(self, rng):
